@@ -681,3 +681,47 @@ Example C01_shipped_catchall_outside_domain :
   | None => False
   end.
 Proof. vm_compute. split; reflexivity. Qed.
+
+(* ====================================================================================================
+   The shipped witness search (Spec/P_C01s.v, harness/shipped_run.py): what the C01 check evaluates on real
+   deployments computed with get_rulebook(hw) - for every shipped undo_redo rule a row that changes its text inside
+   its key, below the block headers the rule needs.  The reference device is given the FOCUSED rule set (the chain
+   of rules alone, headers with default logics): the catch-all of the example above is not in it, so these
+   configurations ARE inside the Tier-A domain.  The two examples show the predicate at work on the chain
+   `interface *` / `mtu` of huawei.rul (looked up by its pattern texts; vacuous if the text no longer has it):
+   the command stream the real pipeline emits for mtu 1500 -> mtu 9000 satisfies every clause; the stream with the
+   removal behind the re-creation (what an %order_reverse rule matching `undo mtu` produces) is inside the domain
+   and fails order_ok, reaches, second_noop, second_empty.
+   ==================================================================================================== *)
+From Annet Require Import Spec.P_C01s.
+
+Definition c01s_chain (h : shw) (pats : list string) : option (list nat) :=
+  option_map (map fst) (find (fun p => list_str_eqb (map snd p) pats) (shipped_ur_paths h)).
+Definition c01s_old : forest := [("interface 10", T [("mtu 1500", T [])])].
+Definition c01s_new : forest := [("interface 10", T [("mtu 9000", T [])])].
+Definition c01s_sk : skey := (ZFin 0, "", true).
+Definition c01s_obs (paths : list (list string)) (pt : ptree) (dev : forest) (p2 : list (list string)) (d2 : bool)
+  : option obs01s :=
+  option_map (fun c => Obs01s "Huawei CE6870" c01_sh_hv c c01s_old c01s_new (Some pt) paths dev (Some p2) d2)
+             (c01s_chain hw_Huawei_CE6870 ["interface *"; "mtu"]).
+
+Example C01_shipped_witness_domain_nonvacuous :
+  match c01s_obs [["interface 10"]; ["interface 10"; "undo mtu"]; ["interface 10"; "mtu 9000"]; ["interface 10"; "quit"]]
+                 (PT [("interface 10", Some (PT [("undo mtu", None, c01s_sk); ("mtu 9000", None, c01s_sk);
+                                                 ("quit", None, c01s_sk)]), c01s_sk)])
+                 c01s_new [] true with
+  | Some o => c1s_report o = (true, [true; true; true; true; true; true; true; true; true; true])
+  | None => True
+  end.
+Proof. vm_compute. reflexivity. Qed.
+
+Example C01_shipped_witness_detects_late_removal :
+  match c01s_obs [["interface 10"]; ["interface 10"; "mtu 9000"]; ["interface 10"; "undo mtu"]; ["interface 10"; "quit"]]
+                 (PT [("interface 10", Some (PT [("mtu 9000", None, c01s_sk); ("undo mtu", None, c01s_sk);
+                                                 ("quit", None, c01s_sk)]), c01s_sk)])
+                 [("interface 10", T [])]
+                 [["interface 10"]; ["interface 10"; "mtu 9000"]; ["interface 10"; "quit"]] false with
+  | Some o => c1s_report o = (false, [true; true; true; true; false; false; false; false; false; true])
+  | None => True
+  end.
+Proof. vm_compute. reflexivity. Qed.
